@@ -87,7 +87,11 @@ func (g *GettyRemoting) sendAsync(session getty.Session, msg message.RpcMessage,
 		return nil, fmt.Errorf("session is closed")
 	}
 	resp := message.NewMessageFuture(msg)
-	g.futures.Store(msg.ID, resp)
+	if callback != nil {
+		// only a request somebody waits for needs a future; responses, heartbeats and
+		// other fire-and-forget messages would leave theirs behind forever
+		g.futures.Store(msg.ID, resp)
+	}
 	_, _, err = session.WritePkg(msg, time.Duration(0))
 	if err != nil {
 		g.futures.Delete(msg.ID)
